@@ -81,6 +81,8 @@ def main(c):
                     exp.append(("step", stp))
                 exp.append(("final", w[-1]))
                 total_walks += 1
+                if total_walks % 97 == 1:
+                    c.sample([f"{stp['th']} {stp['step']}" for stp in w[:-1]][:40])
     vf.daemon_test("subscribe_replay", {"VERIF_IN": inp, "VERIF_OUT": outp}, timeout=2400)
     got = vf.read_jsonl(outp)
     if len(got) != len(exp):
@@ -123,6 +125,7 @@ def main(c):
     c.cov["parts"]["replay"] = {"behaviours": total_walks, "steps": steps_total}
     c.cov["traces_validated_against_impl"] = total_walks
     c.cov["distinct_nontrivial"] = total_walks
+    c.cov["evaluations"] = steps_total                     # scheduler steps executed on the real threads
     c.cov["exhaustive"] = False
     c.cov["rule"] = ("model: all interleavings of two session threads (2-3 calls each, with and without session end), one or two "
                      "subscribers, two shards, three keys, an import policy rejecting one value - exhaustive in TLC; replay: random "
